@@ -268,6 +268,18 @@ Theorem c04_switch_with_calls_in_its_values :
 Proof. exact switch_calls. Qed.
 Print Assumptions c04_switch_with_calls_in_its_values.
 
+(* ... and with calls in the subject of the #switch too (full expansion) *)
+Theorem c04_switch_with_calls_in_its_subject :
+  forall pfnames lib opts x cases,
+    forallb (flat_item pfnames lib) x = true -> forallb (case_calls_ok pfnames lib) cases = true ->
+    o_parserfns opts = true -> o_tfn opts = [] -> o_pfn opts = [] ->
+    exists F, forall stk fuel, (length stk < 98)%nat -> fresh_items stk x = true ->
+      forallb (fun kv => fresh_items stk (snd kv)) cases = true -> (F <= fuel)%nat ->
+      expand_T pfnames lib opts fuel stk true ((switch_head ++ x)%list :: map mkcase cases)
+      = Some (add_newline (switch_calls_result lib (strip_i (page_result lib x)) cases None)).
+Proof. exact switch_full. Qed.
+Print Assumptions c04_switch_with_calls_in_its_subject.
+
 Example c04_switch_calls_example :   (* Template:i = "[{{{1}}}]": {{#switch: b | a = {{i|p}} | b = x{{i|q}} }} gives "x[q]" *)
   let lib := [mktpl [73] [Ch 91; A [[Ch 49]]; Ch 93] false] in
   let cases := [([Ch 97], [T [[Ch 105]; [Ch 112]]]); ([Ch 98], [Ch 120; T [[Ch 105]; [Ch 113]]])] in
